@@ -2,6 +2,7 @@ package c07
 
 import (
 	"fmt"
+	"os"
 	"sort"
 	"strings"
 
@@ -34,8 +35,9 @@ type target struct {
 }
 
 type plan struct {
-	name  string
-	menus [][]string
+	name    string
+	menus   [][]string
+	cascade int // cascadeNever / cascadeVar / cascadeAlways: declarations also go through the cascade (cascade.go)
 }
 
 type declUnit struct {
@@ -49,6 +51,7 @@ type declFam struct {
 	plans   [][]plan // per target
 	units   []declUnit
 	kwErr   string
+	tier    string
 	nOwn    int
 	gaps    []string
 }
@@ -88,7 +91,7 @@ func longhandsOf(name string) (out []string) {
 }
 
 func newDeclFam(tier string) *declFam {
-	f := &declFam{}
+	f := &declFam{tier: tier}
 	kt := loadKwTable()
 	f.kwErr = kt.err
 
@@ -241,6 +244,12 @@ func newDeclFam(tier string) *declFam {
 	sort.Strings(f.gaps)
 
 	// --- plans
+	vAll, vSmall := varMenu(tier), varSmall()
+	vNb := menuVarNeighbours
+	cSeqs := commentSeqs(pick(tier, 4, 5))
+	if tier == "thorough" {
+		vNb = uniq(append(append([]string{}, menuVarNeighbours...), menuNeighbours...))
+	}
 	for ti := range f.targets {
 		t := &f.targets[ti]
 		f.nOwn += len(t.own)
@@ -254,20 +263,35 @@ func newDeclFam(tier string) *declFam {
 		nb := menuNeighbours
 		c3 := uniq(append(append([]string{}, menuCore3...), capList(ownIdents, 24)...))
 		var ps []plan
-		ps = append(ps, plan{"1", [][]string{full}})
-		ps = append(ps, plan{"2", [][]string{full, full}})
-		ps = append(ps, plan{"1x", [][]string{ext}})
+		ps = append(ps, plan{name: "1", menus: [][]string{full}})
+		ps = append(ps, plan{name: "2", menus: [][]string{full, full}})
+		ps = append(ps, plan{name: "1x", menus: [][]string{ext}})
 		if tier == "thorough" {
 			all := uniq(append(append([]string{}, full...), ext...))
-			ps = append(ps, plan{"2x-first", [][]string{ext, all}})
-			ps = append(ps, plan{"2x-second", [][]string{full, ext}})
-			ps = append(ps, plan{"3", [][]string{full, full, full}})
+			ps = append(ps, plan{name: "2x-first", menus: [][]string{ext, all}})
+			ps = append(ps, plan{name: "2x-second", menus: [][]string{full, ext}})
+			ps = append(ps, plan{name: "3", menus: [][]string{full, full, full}})
 			c4 := uniq(append(append([]string{}, menuCore4...), capList(ownIdents, 12)...))
-			ps = append(ps, plan{"4", [][]string{c4, c4, c4, c4}})
+			ps = append(ps, plan{name: "4", menus: [][]string{c4, c4, c4, c4}})
 		} else {
-			ps = append(ps, plan{"2x-first", [][]string{ext, nb}})
-			ps = append(ps, plan{"2x-second", [][]string{nb, ext}})
-			ps = append(ps, plan{"3", [][]string{c3, c3, c3}})
+			ps = append(ps, plan{name: "2x-first", menus: [][]string{ext, nb}})
+			ps = append(ps, plan{name: "2x-second", menus: [][]string{nb, ext}})
+			ps = append(ps, plan{name: "3", menus: [][]string{c3, c3, c3}})
+		}
+		// var() nestings, alone and beside a neighbour; comments in the value before `!important`.
+		// Declarations of these plans are also computed (cascade.go); descriptors have no cascade.
+		ps = append(ps, plan{name: "1v", menus: [][]string{vAll}, cascade: cascadeVar})
+		ps = append(ps, plan{name: "2v-first", menus: [][]string{vSmall, vNb}, cascade: cascadeVar})
+		ps = append(ps, plan{name: "2v-second", menus: [][]string{vNb, vSmall}, cascade: cascadeVar})
+		ps = append(ps, plan{name: "important", menus: [][]string{cSeqs, menuImportant}, cascade: cascadeAlways})
+		if os.Getenv("C07_SUB") != "" {
+			var keep []plan
+			for _, p := range ps {
+				if subWanted(p.name) {
+					keep = append(keep, p)
+				}
+			}
+			ps = keep
 		}
 		f.plans = append(f.plans, ps)
 		for pi, p := range ps {
@@ -290,6 +314,13 @@ func ownOfTarget(ts []target, name string) []string {
 		}
 	}
 	return nil
+}
+
+func pick3(tier string, q, t []string) []string {
+	if tier == "thorough" {
+		return t
+	}
+	return q
 }
 
 func planSize(p plan) int64 {
@@ -339,6 +370,12 @@ func (f *declFam) bounds() any {
 		"names": len(f.targets), "name_list": names, "core_menu": menuCore, "extended_menu_size": len(menuExt), "neighbours": menuNeighbours,
 		"own_keywords_total": f.nOwn, "own_keywords_source": "string literals reachable from each validator in css/validation/*.go (go/parser)",
 		"cases_per_plan": sizes, "cases": f.total(), "unmapped_table_keys": f.gaps,
+		"var_menu (plan 1v)": map[string]any{"size": len(varMenu(f.tier)), "well_formed": varInner, "first_arguments_that_are_no_custom_property": varBadFirst,
+			"level1": varLevel1(), "level_n+1": "var(x) | var(x, 1px) | var(1, x) | var(--u, x) | calc(x) | calc(x + 1px) for x of level n", "levels": pick(f.tier, 2, 3)},
+		"var_menu_with_neighbour (plans 2v-first, 2v-second)": map[string]any{"var_forms": varSmall(), "neighbours": pick3(f.tier, menuVarNeighbours, uniq(append(append([]string{}, menuVarNeighbours...), menuNeighbours...)))},
+		"important_plan": map[string]any{"value": "every sequence of 0.." + fmt.Sprint(pick(f.tier, 4, 5)) + " tokens over {/**/, 1px}", "end": menuImportant},
+		"cascade": map[string]any{"plans": "1v, 2v-first, 2v-second (values containing var() ), important (all)", "document": cascadeDoc("NAME", "VALUE"),
+			"requested": "every property of html, head, style, body, p, span, p::before, the first right page and its @top-left box"},
 	}
 }
 
@@ -368,7 +405,7 @@ func (f *declFam) run(u int64, ctx *engine.Ctx) {
 				}
 				sb.WriteString(p.menus[k][i])
 			}
-			f.one(ctx, t, feats, sb.String())
+			f.one(ctx, t, feats, sb.String(), p.cascade)
 			ctx.Trans(int64(len(idx)))
 			// next
 			k := len(idx) - 1
@@ -387,7 +424,7 @@ func (f *declFam) run(u int64, ctx *engine.Ctx) {
 	}
 }
 
-func (f *declFam) one(ctx *engine.Ctx, t *target, feats []string, value string) {
+func (f *declFam) one(ctx *engine.Ctx, t *target, feats []string, value string, cascade int) {
 	switch t.kind {
 	case kindDecl:
 		desc := feats[0] + "|" + feats[1] + "|" + value
@@ -407,6 +444,11 @@ func (f *declFam) one(ctx *engine.Ctx, t *target, feats []string, value string) 
 			}
 			out = ob.String()
 		})
+		// the document route is an entry point of its own (style attribute, <style> sheet, @page):
+		// it is taken whatever the validators did with the declaration
+		if cascade == cascadeAlways || (cascade == cascadeVar && hasVarText(value)) {
+			defer runCascade(ctx, t.name, value)
+		}
 		if !ok {
 			ctx.Case(true, "panic")
 			return
